@@ -329,6 +329,30 @@ func RunScopes(env *Env, exe string, scopes []*Scope, jobs []job) *Summary {
 	a := &agg{sum: sum, sketch: NewSketch(), scopes: scopes, pending: jobs}
 	a.cond = sync.NewCond(&a.mu)
 	deadline := env.Start.Add(env.Budget)
+	stopProgress := make(chan struct{})
+	if env.Tier == "thorough" || os.Getenv("VERIF_PROGRESS") != "" {
+		go func() {
+			t := time.NewTicker(120 * time.Second)
+			defer t.Stop()
+			for {
+				select {
+				case <-stopProgress:
+					return
+				case <-t.C:
+					a.mu.Lock()
+					cur := ""
+					for i := range sum.Scopes {
+						if sum.Scopes[i].Done > 0 && sum.Scopes[i].Done < sum.Scopes[i].Size {
+							cur += fmt.Sprintf(" [%s %d/%d viol=%d]", sum.Scopes[i].Name, sum.Scopes[i].Done, sum.Scopes[i].Size, sum.Scopes[i].Violations)
+						}
+					}
+					fmt.Fprintf(os.Stderr, "progress %.0fs: transitions=%d violations=%d pending_shards=%d%s\n", time.Since(env.Start).Seconds(), sum.Transitions, sum.ViolCount, len(a.pending), cur)
+					a.mu.Unlock()
+				}
+			}
+		}()
+	}
+	defer close(stopProgress)
 	var wg sync.WaitGroup
 	nw := env.Workers
 	if nw > len(jobs) {
